@@ -78,7 +78,11 @@ MANIFEST = {
             "dflt-nested-case-leftover, fixed by 357db45, is now the regression theorem C07_nested_case_regression), the change "
             "list is not exact (C07_change_set_exact_refuted), trim mode deviates "
             "for leaf-lists (C07_wd_modes_rfc6243_refuted). Tie: component dfltmodel runs generated modules (defaults, default "
-            "leaf-lists, nested choices with default cases, NP / presence containers, lists) x trees from PARSE_ONLY parses and "
+            "leaf-lists, nested choices with default cases, NP / presence containers, lists; every fourth module holds a DEEP "
+            "choice - 3 or 4 levels choice -> case -> choice ..., a default leaf / NP container with a default leaf / default "
+            "leaf-list in every case on the way, shorthand cases, at top level, in a container or in a list - whose only "
+            "explicit node is the innermost leaf: lyd_new_implicit must create the implicit nodes of the case of EVERY "
+            "enclosing choice, computed instance C07_nested_case_outer_defaults) x trees from PARSE_ONLY parses and "
             "edit histories (free / change / new path / tagged print parsed back) through lyd_validate_all / "
             "lyd_new_implicit_all with diff and the five print modes in XML and JSON, and the extracted model on the dumped tree "
             "before each validation: the dump after (default and new flags), the net change list and - per node instance in "
